@@ -6,6 +6,7 @@ import (
 	"runtime"
 	"strings"
 	"sync"
+	"sync/atomic"
 	"time"
 
 	connect "github.com/bufbuild/connect-go"
@@ -98,4 +99,26 @@ func trunc(s string, n int) string {
 		return s[:n] + "..."
 	}
 	return s
+}
+
+// waitHandler waits for the handler of a call to finish. A handler that was
+// never invoked (the request was rejected before user code ran, or never sent)
+// has nothing to finish: that is reported after a short grace period instead
+// of waiting out the full timeout.
+func waitHandler(call *svc.Call, max time.Duration) (finished, invoked bool) {
+	start := time.Now()
+	for {
+		select {
+		case <-call.Log.Finished:
+			return true, true
+		case <-time.After(25 * time.Millisecond):
+		}
+		inv := atomic.LoadInt32(&call.Log.Invocations) > 0
+		if !inv && time.Since(start) > 500*time.Millisecond {
+			return false, false
+		}
+		if time.Since(start) > max {
+			return false, inv
+		}
+	}
 }
